@@ -4,41 +4,85 @@
 import HapModel.Persist
 namespace Hap.Persist
 set_option linter.unusedSimpArgs false
+set_option linter.unusedVariables false
 
-/-! ### atomicity invariant (any `locked`, all labels) -/
+/-! ### list facts about reading a vector component by component -/
+
+theorem take_snoc_getD (l : List Nat) (n : Nat) (h : n < l.length) :
+    l.take n ++ [l[n]?.getD 0] = l.take (n + 1) := by
+  induction l generalizing n with
+  | nil => simp at h
+  | cons x xs ih =>
+    cases n with
+    | zero => simp
+    | succ n =>
+      simp only [List.length_cons] at h
+      simp only [List.take_succ_cons, List.cons_append, List.getElem?_cons_succ]
+      rw [ih n (by omega)]
+
+theorem take_full (l : List Nat) (n : Nat) (h : ¬ n < l.length) : l.take n = l :=
+  List.take_of_length_le (by omega)
+
+theorem mem_of_head? {α} {l : List α} {a : α} (h : l.head? = some a) : a ∈ l := by
+  cases l with
+  | nil => simp at h
+  | cons x xs => simp at h; subst h; simp
+
+theorem headD_of_head? {l : List Vec} {a : Vec} (h : l.head? = some a) : l.headD [] = a := by
+  cases l with
+  | nil => simp at h
+  | cons x xs => simp at h; subst h; rfl
+
+theorem bump_length (m : Vec) (c : Nat) : (bump m c).length = m.length := by
+  induction m generalizing c with
+  | nil => rfl
+  | cons x xs ih => cases c <;> simp [bump, ih]
+
+/-! ### atomicity invariant, structural part (any `locked`, any `slocked`, all labels) -/
 
 /-- what the temp file of job `j` looks like, by program counter -/
-def JobOk (snap : Nat → Content) (s : Sys) (j : Nat) : Prop :=
+def JobOk (snap : Vec → Content) (s : Sys) (j : Nat) : Prop :=
   match s.jobs j with
   | .unspawned => s.temps j = none
   | .start => s.temps j = none
   | .mktemp => s.temps j = none
   | .snapshot => s.temps j = some []
-  | .write v rest => v ≤ s.ver ∧ ∃ cur, s.temps j = some cur ∧ cur ++ rest = snap v
-  | .replace v => v ≤ s.ver ∧ s.temps j = some (snap v)
+  | .reading _ => s.temps j = some []
+  | .write v rest => ∃ cur, s.temps j = some cur ∧ cur ++ rest = snap v
+  | .closing v => s.temps j = some (snap v)
+  | .replace v => s.temps j = some (snap v)
   | .cleanup _ => True
   | .remove _ => True
   | .unlock r => r ≠ .cleanupRaised → s.temps j = none
   | .done r => r ≠ .cleanupRaised → s.temps j = none
 
-structure AtomInv (snap : Nat → Content) (init : Option Content) (s : Sys) : Prop where
-  target : s.target = init ∨ ∃ v, v ≤ s.ver ∧ s.target = some (snap v)
+structure AtomInv (snap : Vec → Content) (init : Option Content) (s : Sys) : Prop where
+  target : s.target = init ∨ ∃ v, s.target = some (snap v)
   jobs : ∀ j, JobOk snap s j
   fresh : ∀ j, s.njobs ≤ j → s.jobs j = .unspawned
 
-theorem atomInv_init (snap : Nat → Content) (init : Option Content) :
-    AtomInv snap init (initSys init) :=
+theorem atomInv_init (snap : Vec → Content) (init : Option Content) (mem0 : Vec) :
+    AtomInv snap init (initSys init mem0) :=
   ⟨Or.inl rfl, fun _ => rfl, fun _ _ => rfl⟩
 
 theorem resOf_ne (r : Bool) : resOf r ≠ .cleanupRaised := by
   cases r <;> simp [resOf]
 
-theorem atomInv_spawn {snap init} {s : Sys} (h : AtomInv snap init s) (k : Nat) :
-    AtomInv snap init (spawn { s with ver := s.ver + k }) := by
-  refine ⟨?_, ?_, ?_⟩
-  · rcases h.target with h1 | ⟨v, hv, h1⟩
-    · exact Or.inl h1
-    · exact Or.inr ⟨v, by simp [spawn]; omega, h1⟩
+/-- a step that touches neither the directory nor the jobs -/
+theorem atomInv_frame {snap init} {s s' : Sys} (h : AtomInv snap init s)
+    (ht : s'.target = s.target) (hp : s'.temps = s.temps) (hj : s'.jobs = s.jobs)
+    (hn : s'.njobs = s.njobs) : AtomInv snap init s' := by
+  refine ⟨by rw [ht]; exact h.target, ?_, ?_⟩
+  · intro j
+    have := h.jobs j
+    unfold JobOk at this ⊢
+    rw [hj, hp]; exact this
+  · intro j hjn
+    rw [hj]; exact h.fresh j (by omega)
+
+theorem atomInv_spawn {snap init} {s : Sys} (h : AtomInv snap init s) :
+    AtomInv snap init (spawn s) := by
+  refine ⟨h.target, ?_, ?_⟩
   · intro j
     have hj := h.jobs j
     have hf := h.fresh j
@@ -50,27 +94,16 @@ theorem atomInv_spawn {snap init} {s : Sys} (h : AtomInv snap init s) (k : Nat) 
       simp [this] at hj
       simp [hj]
     · simp only [e, if_false]
-      split <;> simp_all <;> omega
+      exact hj
   · intro j hj
     simp only [spawn] at hj ⊢
     have : j ≠ s.njobs := by omega
     simp [this]
     exact h.fresh j (by omega)
 
-theorem atomInv_bump {snap init} {s : Sys} (h : AtomInv snap init s) :
-    AtomInv snap init { s with ver := s.ver + 1 } := by
-  refine ⟨?_, ?_, h.fresh⟩
-  · rcases h.target with h1 | ⟨v, hv, h1⟩
-    · exact Or.inl h1
-    · exact Or.inr ⟨v, by simp; omega, h1⟩
-  · intro j
-    have hj := h.jobs j
-    unfold JobOk at hj ⊢
-    simp only
-    split <;> simp_all <;> omega
-
-theorem atomInv_adv {locked snap init} {s s' : Sys} {j : Nat}
-    (h : AtomInv snap init s) (hs : adv locked snap s j = some s') : AtomInv snap init s' := by
+theorem atomInv_adv {locked slocked snap init} {s s' : Sys} {j : Nat}
+    (h : AtomInv snap init s) (hs : adv locked slocked snap s j = some s') :
+    AtomInv snap init s' := by
   have hj := h.jobs j
   unfold adv at hs
   unfold JobOk at hj
@@ -100,8 +133,8 @@ theorem atomInv_adv {locked snap init} {s s' : Sys} {j : Nat}
       have := h.fresh i hi
       simp_all [setJob, setTemp]
 
-theorem atomInv_fault {snap init} {s s' : Sys} {j : Nat}
-    (h : AtomInv snap init s) (hs : fault s j = some s') : AtomInv snap init s' := by
+theorem atomInv_fault {slocked snap init} {s s' : Sys} {j : Nat}
+    (h : AtomInv snap init s) (hs : fault slocked s j = some s') : AtomInv snap init s' := by
   have hj := h.jobs j
   unfold fault at hs
   unfold JobOk at hj
@@ -129,23 +162,113 @@ theorem atomInv_fault {snap init} {s s' : Sys} {j : Nat}
       have := h.fresh i hi
       simp_all [setJob, setTemp]
 
-theorem atomInv_step {locked snap init} {s s' : Sys} {l : Label}
-    (h : AtomInv snap init s) (hs : step locked snap s l = some s') : AtomInv snap init s' := by
+/-- the three steps of a state change and `spawn`, as seen by an invariant `P` that depends only on
+    directory and jobs: case analysis of `step` done once -/
+theorem step_cases {locked slocked snap} {s s' : Sys} {l : Label}
+    (hs : step locked slocked snap s l = some s') :
+    s.crashed = false ∧
+    ((l = .mbegin ∧ s.chg = false ∧ (slocked = true → s.slock = none) ∧
+        s' = { s with chg := true, slock := if slocked then some .changer else s.slock }) ∨
+     (∃ c, l = .mwrite c ∧ s.chg = true ∧ s' = { s with mem := bump s.mem c }) ∨
+     (∃ b, l = .mend b ∧ s.chg = true ∧
+        s' = (if b then spawn { s with chg := false, hist := s.mem :: s.hist,
+                                       slock := if slocked then none else s.slock }
+              else { s with chg := false, hist := s.mem :: s.hist,
+                            slock := if slocked then none else s.slock })) ∨
+     (l = .spawn ∧ s' = spawn s) ∨
+     (∃ j, l = .adv j ∧ adv locked slocked snap s j = some s') ∨
+     (∃ j, l = .fault j ∧ fault slocked s j = some s') ∨
+     (l = .crash ∧ s' = { s with crashed := true }) ∨
+     (∃ j, l = .cancel j ∧ s.jobs j = .start ∧ s' = setJob s j (.done .cancelled))) := by
   unfold step at hs
   split at hs
   · cases hs
-  · cases l with
-    | mutate => injection hs with hs; subst hs; exact atomInv_spawn h 1
-    | spawn => injection hs with hs; subst hs; exact atomInv_spawn h 0
-    | change => injection hs with hs; subst hs; exact atomInv_bump h
-    | adv j => exact atomInv_adv h hs
-    | fault j => exact atomInv_fault h hs
+  · next hc =>
+    refine ⟨by simpa using hc, ?_⟩
+    cases l with
+    | mbegin =>
+      left
+      simp only at hs
+      split at hs
+      · cases hs
+      · next hm =>
+        split at hs
+        · next hsl =>
+          split at hs
+          · next hn =>
+            injection hs with hs; subst hs
+            exact ⟨rfl, by simpa using hm, fun _ => hn, by simp [hsl]⟩
+          · cases hs
+        · next hsl =>
+          injection hs with hs; subst hs
+          refine ⟨rfl, by simpa using hm, ?_, by simp [hsl]⟩
+          intro h; exact absurd h hsl
+    | mwrite c =>
+      right; left
+      simp only at hs
+      split at hs
+      · next hm => injection hs with hs; subst hs; exact ⟨c, rfl, hm, rfl⟩
+      · cases hs
+    | mend b =>
+      right; right; left
+      simp only at hs
+      split at hs
+      · next hm => injection hs with hs; subst hs; exact ⟨b, rfl, hm, rfl⟩
+      · cases hs
+    | spawn =>
+      right; right; right; left
+      injection hs with hs; subst hs; exact ⟨rfl, rfl⟩
+    | adv j => right; right; right; right; left; exact ⟨j, rfl, hs⟩
+    | fault j => right; right; right; right; right; left; exact ⟨j, rfl, hs⟩
     | crash =>
-      injection hs with hs; subst hs
-      exact ⟨h.target, h.jobs, h.fresh⟩
+      right; right; right; right; right; right; left
+      injection hs with hs; subst hs; exact ⟨rfl, rfl⟩
+    | cancel j =>
+      right; right; right; right; right; right; right
+      simp only at hs
+      split at hs
+      · next hpc => injection hs with hs; subst hs; exact ⟨j, rfl, hpc, rfl⟩
+      · cases hs
 
-theorem atomInv_exec {locked snap init} (ls : List Label) {s s' : Sys}
-    (h : AtomInv snap init s) (hs : exec locked snap ls s = some s') : AtomInv snap init s' := by
+theorem atomInv_step {locked slocked snap init} {s s' : Sys} {l : Label}
+    (h : AtomInv snap init s) (hs : step locked slocked snap s l = some s') :
+    AtomInv snap init s' := by
+  obtain ⟨_, hc⟩ := step_cases hs
+  rcases hc with ⟨_, _, _, e⟩ | ⟨c, _, _, e⟩ | ⟨b, _, _, e⟩ | ⟨_, e⟩ | ⟨j, _, e⟩ | ⟨j, _, e⟩ | ⟨_, e⟩ |
+    ⟨j, _, hpc, e⟩
+  · subst e; exact atomInv_frame h rfl rfl rfl rfl
+  · subst e; exact atomInv_frame h rfl rfl rfl rfl
+  · subst e
+    cases b
+    · exact atomInv_frame h rfl rfl rfl rfl
+    · exact atomInv_spawn (atomInv_frame h rfl rfl rfl rfl)
+  · subst e; exact atomInv_spawn h
+  · exact atomInv_adv h e
+  · exact atomInv_fault h e
+  · subst e; exact atomInv_frame h rfl rfl rfl rfl
+  · -- cancel: a queued job has no temp file
+    subst e
+    have hj := h.jobs j
+    unfold JobOk at hj
+    rw [hpc] at hj
+    refine ⟨h.target, ?_, ?_⟩
+    · intro i
+      have hi := h.jobs i
+      unfold JobOk at hi ⊢
+      by_cases e : i = j
+      · subst e; simp [setJob, hj]
+      · simp only [setJob, e, if_false]; exact hi
+    · intro i hi
+      have hne : i ≠ j := by
+        intro e; subst e
+        have := h.fresh i hi
+        rw [hpc] at this; cases this
+      simp only [setJob, hne, if_false]
+      exact h.fresh i hi
+
+theorem atomInv_exec {locked slocked snap init} (ls : List Label) {s s' : Sys}
+    (h : AtomInv snap init s) (hs : exec locked slocked snap ls s = some s') :
+    AtomInv snap init s' := by
   induction ls generalizing s with
   | nil => simp [exec] at hs; subst hs; exact h
   | cons l ls ih =>
@@ -154,13 +277,379 @@ theorem atomInv_exec {locked snap init} (ls : List Label) {s s' : Sys}
     · next s1 h1 => exact ih (atomInv_step h h1) hs
     · cases hs
 
-/-! ### mutual exclusion (locked relation, all labels) -/
+/-! ### the snapshot invariant (with `state.lock`, all labels): what a save reads, carries and
+    installs is a state that existed at a change boundary -/
+
+/-- the job is inside `with self.state.lock:` -/
+def Pc.inRead : Pc → Bool
+  | .reading _ => true
+  | .write _ _ => true
+  | _ => false
+
+def SnapOk (s : Sys) (j : Nat) : Prop :=
+  match s.jobs j with
+  | .reading got => s.slock = some (.job j) ∧ got = s.mem.take got.length
+  | .write v _ => s.slock = some (.job j) ∧ v ∈ s.hist
+  | .closing v => v ∈ s.hist
+  | .replace v => v ∈ s.hist
+  | _ => True
+
+structure SnapInv (snap : Vec → Content) (init : Option Content) (s : Sys) : Prop where
+  jobs : ∀ j, SnapOk s j
+  holder : ∀ j, s.slock = some (.job j) → (s.jobs j).inRead = true
+  chgHeld : s.chg = true → s.slock = some .changer
+  heldChg : s.slock = some .changer → s.chg = true
+  memHist : s.chg = false → s.hist.head? = some s.mem
+  target : s.target = init ∨ ∃ v, v ∈ s.hist ∧ s.target = some (snap v)
+
+theorem snapInv_init (snap : Vec → Content) (init : Option Content) (mem0 : Vec) :
+    SnapInv snap init (initSys init mem0) := by
+  refine ⟨fun _ => ?_, ?_, ?_, ?_, ?_, Or.inl rfl⟩ <;> simp [initSys, SnapOk]
+
+theorem snapInv_spawn {snap init} {s : Sys} (ha : AtomInv snap init s)
+    (h : SnapInv snap init s) : SnapInv snap init (spawn s) := by
+  have hfresh := ha.fresh s.njobs (Nat.le_refl _)
+  refine ⟨?_, ?_, h.chgHeld, h.heldChg, h.memHist, h.target⟩
+  · intro j
+    have hj := h.jobs j
+    unfold SnapOk at hj ⊢
+    simp only [spawn]
+    by_cases e : j = s.njobs
+    · subst e; simp
+    · simp only [e, if_false]; exact hj
+  · intro j hj
+    have := h.holder j hj
+    simp only [spawn] at hj ⊢
+    by_cases e : j = s.njobs
+    · subst e; rw [hfresh] at this; simp [Pc.inRead] at this
+    · simp only [e, if_false]; exact this
+
+/-- job `j` moves to a pc outside the reading section from one outside it; memory, history, locks
+    and the state file are untouched -/
+theorem snapInv_move {snap init} {s s' : Sys} {j : Nat} {pc' : Pc}
+    (h : SnapInv snap init s)
+    (hjobs : s'.jobs = fun i => if i = j then pc' else s.jobs i)
+    (hsl : s'.slock = s.slock) (hmem : s'.mem = s.mem) (hh : s'.hist = s.hist)
+    (hc : s'.chg = s.chg) (ht : s'.target = s.target)
+    (hold : (s.jobs j).inRead = false)
+    (hnew : match pc' with
+      | .reading _ => False | .write _ _ => False | .replace v => v ∈ s.hist
+      | .closing v => v ∈ s.hist | _ => True) :
+    SnapInv snap init s' := by
+  refine ⟨?_, ?_, by rw [hc, hsl]; exact h.chgHeld, by rw [hc, hsl]; exact h.heldChg,
+    by rw [hc, hh, hmem]; exact h.memHist, by rw [ht, hh]; exact h.target⟩
+  · intro i
+    have hi := h.jobs i
+    unfold SnapOk at hi ⊢
+    rw [hjobs, hsl, hmem, hh]
+    by_cases e : i = j
+    · subst e
+      simp only [if_true]
+      cases pc' <;> simp_all
+    · simp only [e, if_false]; exact hi
+  · intro i hi
+    rw [hsl] at hi
+    have := h.holder i hi
+    rw [hjobs]
+    by_cases e : i = j
+    · subst e; rw [hold] at this; cases this
+    · simp only [e, if_false]; exact this
+
+theorem snapInv_adv {locked snap init} {s s' : Sys} {j : Nat}
+    (ha : AtomInv snap init s) (h : SnapInv snap init s)
+    (hs : adv locked true snap s j = some s') : SnapInv snap init s' := by
+  have hj := h.jobs j
+  have hjo := ha.jobs j
+  have hho := h.holder
+  have hc := h.chgHeld
+  have hc' := h.heldChg
+  have hm := h.memHist
+  have ht := h.target
+  unfold adv at hs
+  unfold SnapOk at hj
+  unfold JobOk at hjo
+  split at hs
+  · cases hs
+  · -- start
+    next hpc =>
+    split at hs
+    · split at hs
+      · injection hs with hs; subst hs
+        exact snapInv_move (j := j) (pc' := .mktemp) h rfl rfl rfl rfl rfl rfl
+          (by simp [hpc, Pc.inRead]) trivial
+      · cases hs
+    · injection hs with hs; subst hs
+      exact snapInv_move (j := j) (pc' := .mktemp) h rfl rfl rfl rfl rfl rfl
+        (by simp [hpc, Pc.inRead]) trivial
+  · -- mktemp
+    next hpc =>
+    injection hs with hs; subst hs
+    exact snapInv_move (j := j) (pc' := .snapshot) h rfl rfl rfl rfl rfl rfl
+      (by simp [hpc, Pc.inRead]) trivial
+  · -- snapshot: acquire state.lock
+    next hpc =>
+    simp only [if_true] at hs
+    split at hs
+    · next hsl =>
+      injection hs with hs; subst hs
+      have hmut : s.chg = false := by
+        cases hmm : s.chg with
+        | false => rfl
+        | true => have := hc hmm; rw [hsl] at this; cases this
+      refine ⟨?_, ?_, ?_, ?_, hm, ht⟩
+      · intro i; have hi := h.jobs i; unfold SnapOk at hi ⊢
+        by_cases e : i = j
+        · subst e; simp [setJob]
+        · simp only [setJob, e, if_false]
+          split <;> simp_all
+      · intro i hi
+        simp only [setJob] at hi ⊢
+        simp only [Option.some.injEq, Owner.job.injEq] at hi
+        subst hi; simp [Pc.inRead]
+      · intro hmm; simp only [setJob] at hmm; rw [hmut] at hmm; cases hmm
+      · intro hh; simp [setJob] at hh
+    · cases hs
+  · -- reading
+    next got hpc =>
+    rw [hpc] at hj
+    split at hs
+    · next hlt =>
+      injection hs with hs; subst hs
+      refine ⟨?_, ?_, hc, hc', hm, ht⟩
+      · intro i; have hi := h.jobs i; unfold SnapOk at hi ⊢
+        by_cases e : i = j
+        · subst e
+          simp only [setJob, if_true]
+          refine ⟨hj.1, ?_⟩
+          have h2 := hj.2
+          rw [List.length_append, List.length_singleton]
+          rw [← take_snoc_getD s.mem got.length hlt, ← h2]
+        · simp only [setJob, e, if_false]; exact hi
+      · intro i hi
+        have := hho i hi
+        simp only [setJob] at hi ⊢
+        by_cases e : i = j
+        · subst e; simp [Pc.inRead]
+        · simp only [e, if_false]; exact this
+    · next hlt =>
+      injection hs with hs; subst hs
+      have hmut : s.chg = false := by
+        cases hmm : s.chg with
+        | false => rfl
+        | true => have := hc hmm; rw [hj.1] at this; cases this
+      have hgot : got = s.mem := by
+        have h2 := hj.2
+        rw [take_full s.mem got.length hlt] at h2; exact h2
+      refine ⟨?_, ?_, hc, hc', hm, ht⟩
+      · intro i; have hi := h.jobs i; unfold SnapOk at hi ⊢
+        by_cases e : i = j
+        · subst e
+          simp only [setJob, if_true]
+          exact ⟨hj.1, by rw [hgot]; exact mem_of_head? (hm hmut)⟩
+        · simp only [setJob, e, if_false]; exact hi
+      · intro i hi
+        have := hho i hi
+        simp only [setJob] at hi ⊢
+        by_cases e : i = j
+        · subst e; simp [Pc.inRead]
+        · simp only [e, if_false]; exact this
+  · -- write chunk
+    next v c rest hpc =>
+    rw [hpc] at hj
+    injection hs with hs; subst hs
+    refine ⟨?_, ?_, hc, hc', hm, ht⟩
+    · intro i; have hi := h.jobs i; unfold SnapOk at hi ⊢
+      by_cases e : i = j
+      · subst e; simp only [setJob, setTemp, if_true]; exact hj
+      · simp only [setJob, setTemp, e, if_false]; exact hi
+    · intro i hi; have := hho i hi
+      by_cases e : i = j <;> simp_all [setJob, setTemp, Pc.inRead]
+  · -- close: release state.lock
+    next v hpc =>
+    rw [hpc] at hj
+    injection hs with hs; subst hs
+    have hmut : s.chg = false := by
+      cases hmm : s.chg with
+      | false => rfl
+      | true => have := hc hmm; rw [hj.1] at this; cases this
+    refine ⟨?_, ?_, ?_, ?_, hm, ht⟩
+    · intro i; have hi := h.jobs i; unfold SnapOk at hi ⊢
+      by_cases e : i = j
+      · subst e; simp only [setJob, if_true]; exact hj.2
+      · simp only [setJob, e, if_false]
+        have hji := hj.1
+        split <;> simp_all
+    · intro i hi; simp [setJob] at hi
+    · intro hmm; simp only [setJob] at hmm; rw [hmut] at hmm; cases hmm
+    · intro hh; simp [setJob] at hh
+  · -- close
+    next v hpc =>
+    rw [hpc] at hj
+    injection hs with hs; subst hs
+    exact snapInv_move (j := j) (pc' := .replace v) h rfl rfl rfl rfl rfl rfl
+      (by simp [hpc, Pc.inRead]) hj
+  · -- replace: installs a state that existed
+    next v hpc =>
+    rw [hpc] at hj hjo
+    injection hs with hs; subst hs
+    have := snapInv_move (s' := setJob (setTemp s j none) j (.cleanup false)) (j := j)
+      (pc' := .cleanup false) h rfl rfl rfl rfl rfl rfl (by simp [hpc, Pc.inRead]) trivial
+    exact ⟨this.jobs, this.holder, this.chgHeld, this.heldChg, this.memHist,
+      Or.inr ⟨v, hj, by simp [setJob, setTemp, hjo]⟩⟩
+  · -- cleanup
+    next r hpc =>
+    split at hs
+    · injection hs with hs; subst hs
+      exact snapInv_move (j := j) (pc' := .remove r) h rfl rfl rfl rfl rfl rfl
+        (by simp [hpc, Pc.inRead]) trivial
+    · injection hs with hs; subst hs
+      exact snapInv_move (j := j) (pc' := .unlock (resOf r)) h rfl rfl rfl rfl rfl rfl
+        (by simp [hpc, Pc.inRead]) trivial
+  · -- remove
+    next r hpc =>
+    injection hs with hs; subst hs
+    exact snapInv_move (j := j) (pc' := .unlock (resOf r)) h rfl rfl rfl rfl rfl rfl
+      (by simp [hpc, Pc.inRead]) trivial
+  · -- unlock
+    next r hpc =>
+    injection hs with hs; subst hs
+    exact snapInv_move (j := j) (pc' := .done r) h rfl rfl rfl rfl rfl rfl
+      (by simp [hpc, Pc.inRead]) trivial
+  · cases hs
+
+theorem snapInv_fault {snap init} {s s' : Sys} {j : Nat}
+    (h : SnapInv snap init s) (hs : fault true s j = some s') : SnapInv snap init s' := by
+  have hj := h.jobs j
+  have hc := h.chgHeld
+  have hm := h.memHist
+  have ht := h.target
+  unfold fault at hs
+  unfold SnapOk at hj
+  have release : ∀ (hin : (s.jobs j).inRead = true) (hsl : s.slock = some (.job j)) (b : Bool),
+      SnapInv snap init (setJob { s with slock := none } j (.cleanup b)) := by
+    intro hin hsl b
+    have hmut : s.chg = false := by
+      cases hmm : s.chg with
+      | false => rfl
+      | true => have := hc hmm; rw [hsl] at this; cases this
+    refine ⟨?_, ?_, ?_, ?_, hm, ht⟩
+    · intro i; have hi := h.jobs i; unfold SnapOk at hi ⊢
+      by_cases e : i = j
+      · subst e; simp [setJob]
+      · simp only [setJob, e, if_false]
+        split <;> simp_all
+    · intro i hi; simp [setJob] at hi
+    · intro hmm; simp only [setJob] at hmm; rw [hmut] at hmm; cases hmm
+    · intro hh; simp [setJob] at hh
+  split at hs
+  · next hpc =>
+    injection hs with hs; subst hs
+    exact snapInv_move (j := j) (pc' := .unlock .raised) h rfl rfl rfl rfl rfl rfl
+      (by simp [hpc, Pc.inRead]) trivial
+  · next hpc =>
+    injection hs with hs; subst hs
+    exact snapInv_move (j := j) (pc' := .cleanup true) h rfl rfl rfl rfl rfl rfl
+      (by simp [hpc, Pc.inRead]) trivial
+  · next got hpc =>
+    injection hs with hs; subst hs
+    rw [hpc] at hj
+    exact release (by simp [hpc, Pc.inRead]) hj.1 true
+  · next v rest hpc =>
+    injection hs with hs; subst hs
+    rw [hpc] at hj
+    exact release (by simp [hpc, Pc.inRead]) hj.1 true
+  · next hpc =>
+    injection hs with hs; subst hs
+    exact snapInv_move (j := j) (pc' := .cleanup true) h rfl rfl rfl rfl rfl rfl
+      (by simp [hpc, Pc.inRead]) trivial
+  · next hpc =>
+    injection hs with hs; subst hs
+    exact snapInv_move (j := j) (pc' := .cleanup true) h rfl rfl rfl rfl rfl rfl
+      (by simp [hpc, Pc.inRead]) trivial
+  · next hpc =>
+    injection hs with hs; subst hs
+    exact snapInv_move (j := j) (pc' := .unlock .cleanupRaised) h rfl rfl rfl rfl rfl rfl
+      (by simp [hpc, Pc.inRead]) trivial
+  · next hpc =>
+    injection hs with hs; subst hs
+    exact snapInv_move (j := j) (pc' := .unlock .cleanupRaised) h rfl rfl rfl rfl rfl rfl
+      (by simp [hpc, Pc.inRead]) trivial
+  · cases hs
+
+theorem snapInv_step {locked snap init} {s s' : Sys} {l : Label}
+    (ha : AtomInv snap init s) (h : SnapInv snap init s)
+    (hs : step locked true snap s l = some s') : SnapInv snap init s' := by
+  obtain ⟨_, hc⟩ := step_cases hs
+  rcases hc with ⟨_, hm, hsl, e⟩ | ⟨c, _, hm, e⟩ | ⟨b, _, hm, e⟩ | ⟨_, e⟩ | ⟨j, _, e⟩ |
+    ⟨j, _, e⟩ | ⟨_, e⟩ | ⟨j, _, hpc, e⟩
+  · -- mbegin: the changer takes state.lock; nobody is reading
+    subst e
+    have hsl := hsl rfl
+    refine ⟨?_, ?_, ?_, ?_, ?_, h.target⟩
+    · intro i; have hi := h.jobs i; unfold SnapOk at hi ⊢
+      simp only [if_true]
+      split <;> simp_all
+    · intro i hi; simp at hi
+    · intro _; simp
+    · intro _; rfl
+    · intro hh; simp at hh
+  · -- mwrite: only the changer, holding the lock, stores into memory
+    subst e
+    have hsl := h.chgHeld hm
+    refine ⟨?_, ?_, h.chgHeld, h.heldChg, ?_, h.target⟩
+    · intro i; have hi := h.jobs i; unfold SnapOk at hi ⊢
+      simp only
+      split <;> simp_all
+    · intro i hi; exact h.holder i hi
+    · intro hh; simp only at hh; rw [hm] at hh; cases hh
+  · -- mend: the new memory becomes a state that existed
+    subst e
+    have hsl := h.chgHeld hm
+    have base : SnapInv snap init { s with chg := false, hist := s.mem :: s.hist, slock := none } := by
+      refine ⟨?_, ?_, ?_, ?_, ?_, ?_⟩
+      · intro i; have hi := h.jobs i; unfold SnapOk at hi ⊢
+        simp only
+        split <;> simp_all
+      · intro i hi; simp at hi
+      · intro hh; simp at hh
+      · intro hh; simp at hh
+      · intro _; rfl
+      · rcases h.target with t | ⟨v, hv, t⟩
+        · exact Or.inl t
+        · exact Or.inr ⟨v, by simp [hv], t⟩
+    cases b
+    · simpa using base
+    · simp only [if_true]
+      exact snapInv_spawn (atomInv_frame ha rfl rfl rfl rfl) base
+  · subst e; exact snapInv_spawn ha h
+  · exact snapInv_adv ha h e
+  · exact snapInv_fault h e
+  · subst e
+    exact ⟨h.jobs, h.holder, h.chgHeld, h.heldChg, h.memHist, h.target⟩
+  · subst e
+    exact snapInv_move (j := j) (pc' := .done .cancelled) h rfl rfl rfl rfl rfl rfl
+      (by simp [hpc, Pc.inRead]) trivial
+
+theorem snapInv_exec {locked snap init} (ls : List Label) {s s' : Sys}
+    (ha : AtomInv snap init s) (h : SnapInv snap init s)
+    (hs : exec locked true snap ls s = some s') : SnapInv snap init s' := by
+  induction ls generalizing s with
+  | nil => simp [exec] at hs; subst hs; exact h
+  | cons l ls ih =>
+    simp only [exec] at hs
+    split at hs
+    · next s1 h1 => exact ih (atomInv_step ha h1) (snapInv_step ha h h1) hs
+    · cases hs
+
+/-! ### mutual exclusion on the persist lock (locked relation, all labels) -/
 
 /-- the job is inside `with self._persist_lock:` -/
 def Pc.inCS : Pc → Bool
   | .mktemp => true
   | .snapshot => true
+  | .reading _ => true
   | .write _ _ => true
+  | .closing _ => true
   | .replace _ => true
   | .cleanup _ => true
   | .remove _ => true
@@ -172,20 +661,25 @@ def Pc.pre : Pc → Bool
   | .start => true
   | .mktemp => true
   | .snapshot => true
+  | .reading _ => true
   | _ => false
 
-/-- the version whose snapshot the job holds and has not yet installed -/
-def Pc.carries : Pc → Option Nat
+/-- the snapshot the job holds and has not yet installed -/
+def Pc.carries : Pc → Option Vec
   | .write v _ => some v
+  | .closing v => some v
   | .replace v => some v
   | _ => none
 
-theorem Pc.inCS_of_carries {pc : Pc} {v : Nat} (h : pc.carries = some v) : pc.inCS = true := by
+theorem Pc.inCS_of_carries {pc : Pc} {v : Vec} (h : pc.carries = some v) : pc.inCS = true := by
   cases pc <;> simp_all [Pc.carries, Pc.inCS]
+
+theorem Pc.inCS_of_inRead {pc : Pc} (h : pc.inRead = true) : pc.inCS = true := by
+  cases pc <;> simp_all [Pc.inRead, Pc.inCS]
 
 def Mutex (s : Sys) : Prop := ∀ j, (s.jobs j).inCS = true → s.lock = some j
 
-theorem mutex_init (init : Option Content) : Mutex (initSys init) := by
+theorem mutex_init (init : Option Content) (mem0 : Vec) : Mutex (initSys init mem0) := by
   intro j h; simp [initSys, Pc.inCS] at h
 
 theorem mutex_unique {s : Sys} (h : Mutex s) {i j : Nat}
@@ -195,7 +689,11 @@ theorem mutex_unique {s : Sys} (h : Mutex s) {i j : Nat}
   rw [a] at b
   exact Option.some.inj b
 
-theorem mutex_spawn {s : Sys} (h : Mutex s) (k : Nat) : Mutex (spawn { s with ver := s.ver + k }) := by
+theorem mutex_frame {s s' : Sys} (h : Mutex s) (hj : s'.jobs = s.jobs) (hl : s'.lock = s.lock) :
+    Mutex s' := by
+  intro j; rw [hj, hl]; exact h j
+
+theorem mutex_spawn {s : Sys} (h : Mutex s) : Mutex (spawn s) := by
   intro j hj
   simp only [spawn] at hj ⊢
   by_cases e : j = s.njobs
@@ -203,8 +701,8 @@ theorem mutex_spawn {s : Sys} (h : Mutex s) (k : Nat) : Mutex (spawn { s with ve
   · simp only [e, if_false] at hj
     exact h j hj
 
-theorem mutex_adv {snap} {s s' : Sys} {j : Nat}
-    (h : Mutex s) (hs : adv true snap s j = some s') : Mutex s' := by
+theorem mutex_adv {slocked snap} {s s' : Sys} {j : Nat}
+    (h : Mutex s) (hs : adv true slocked snap s j = some s') : Mutex s' := by
   unfold adv at hs
   split at hs
   all_goals (try split at hs)
@@ -221,8 +719,8 @@ theorem mutex_adv {snap} {s s' : Sys} {j : Nat}
       simp_all [setJob, setTemp, Pc.inCS]
     · simp_all [setJob, setTemp, Pc.inCS] <;> grind
 
-theorem mutex_fault {s s' : Sys} {j : Nat}
-    (h : Mutex s) (hs : fault s j = some s') : Mutex s' := by
+theorem mutex_fault {slocked} {s s' : Sys} {j : Nat}
+    (h : Mutex s) (hs : fault slocked s j = some s') : Mutex s' := by
   unfold fault at hs
   split at hs
   all_goals (first | (cases hs; done) | skip)
@@ -237,21 +735,29 @@ theorem mutex_fault {s s' : Sys} {j : Nat}
       simp_all [setJob, setTemp, Pc.inCS]
     · simp_all [setJob, setTemp, Pc.inCS]
 
-theorem mutex_step {snap} {s s' : Sys} {l : Label}
-    (h : Mutex s) (hs : step true snap s l = some s') : Mutex s' := by
-  unfold step at hs
-  split at hs
-  · cases hs
-  · cases l with
-    | mutate => injection hs with hs; subst hs; exact mutex_spawn h 1
-    | spawn => injection hs with hs; subst hs; exact mutex_spawn h 0
-    | change => injection hs with hs; subst hs; exact h
-    | adv j => exact mutex_adv h hs
-    | fault j => exact mutex_fault h hs
-    | crash => injection hs with hs; subst hs; exact h
+theorem mutex_step {slocked snap} {s s' : Sys} {l : Label}
+    (h : Mutex s) (hs : step true slocked snap s l = some s') : Mutex s' := by
+  obtain ⟨_, hc⟩ := step_cases hs
+  rcases hc with ⟨_, _, _, e⟩ | ⟨c, _, _, e⟩ | ⟨b, _, _, e⟩ | ⟨_, e⟩ | ⟨j, _, e⟩ | ⟨j, _, e⟩ | ⟨_, e⟩ |
+    ⟨j, _, hpc, e⟩
+  · subst e; exact mutex_frame h rfl rfl
+  · subst e; exact mutex_frame h rfl rfl
+  · subst e
+    cases b
+    · exact mutex_frame h rfl rfl
+    · exact mutex_spawn (mutex_frame h rfl rfl)
+  · subst e; exact mutex_spawn h
+  · exact mutex_adv h e
+  · exact mutex_fault h e
+  · subst e; exact mutex_frame h rfl rfl
+  · subst e
+    intro i hi
+    by_cases e : i = j
+    · subst e; simp [setJob, Pc.inCS] at hi
+    · simp only [setJob, e, if_false] at hi ⊢; exact h i hi
 
-theorem mutex_exec {snap} (ls : List Label) {s s' : Sys}
-    (h : Mutex s) (hs : exec true snap ls s = some s') : Mutex s' := by
+theorem mutex_exec {slocked snap} (ls : List Label) {s s' : Sys}
+    (h : Mutex s) (hs : exec true slocked snap ls s = some s') : Mutex s' := by
   induction ls generalizing s with
   | nil => simp [exec] at hs; subst hs; exact h
   | cons l ls ih =>
@@ -260,15 +766,19 @@ theorem mutex_exec {snap} (ls : List Label) {s s' : Sys}
     · next s1 h1 => exact ih (mutex_step h h1) hs
     · cases hs
 
-/-! ### the lock is held only by a job inside the critical section; progress -/
+/-! ### the persist lock is held only by a job inside the critical section; progress -/
 
 def Held (s : Sys) : Prop := ∀ j, s.lock = some j → (s.jobs j).inCS = true
 
-theorem held_init (init : Option Content) : Held (initSys init) := by
+theorem held_init (init : Option Content) (mem0 : Vec) : Held (initSys init mem0) := by
   intro j h; simp [initSys] at h
 
-theorem held_spawn {snap init} {s : Sys} (ha : AtomInv snap init s) (h : Held s) (k : Nat) :
-    Held (spawn { s with ver := s.ver + k }) := by
+theorem held_frame {s s' : Sys} (h : Held s) (hj : s'.jobs = s.jobs) (hl : s'.lock = s.lock) :
+    Held s' := by
+  intro j; rw [hj, hl]; exact h j
+
+theorem held_spawn {snap init} {s : Sys} (ha : AtomInv snap init s) (h : Held s) :
+    Held (spawn s) := by
   intro j hj
   simp only [spawn] at hj ⊢
   have hcs := h j hj
@@ -280,8 +790,8 @@ theorem held_spawn {snap init} {s : Sys} (ha : AtomInv snap init s) (h : Held s)
   · simp only [e, if_false]
     exact hcs
 
-theorem held_adv {snap} {s s' : Sys} {j : Nat}
-    (hm : Mutex s) (h : Held s) (hs : adv true snap s j = some s') : Held s' := by
+theorem held_adv {slocked snap} {s s' : Sys} {j : Nat}
+    (hm : Mutex s) (h : Held s) (hs : adv true slocked snap s j = some s') : Held s' := by
   unfold adv at hs
   split at hs
   all_goals (try split at hs)
@@ -298,8 +808,8 @@ theorem held_adv {snap} {s s' : Sys} {j : Nat}
       simp_all [setJob, setTemp, Pc.inCS]
     · simp_all [setJob, setTemp, Pc.inCS]
 
-theorem held_fault {s s' : Sys} {j : Nat}
-    (h : Held s) (hs : fault s j = some s') : Held s' := by
+theorem held_fault {slocked} {s s' : Sys} {j : Nat}
+    (h : Held s) (hs : fault slocked s j = some s') : Held s' := by
   unfold fault at hs
   split at hs
   all_goals (first | (cases hs; done) | skip)
@@ -313,23 +823,32 @@ theorem held_fault {s s' : Sys} {j : Nat}
       simp_all [setJob, setTemp, Pc.inCS]
     · simp_all [setJob, setTemp, Pc.inCS]
 
-theorem held_step {snap init} {s s' : Sys} {l : Label}
+theorem held_step {slocked snap init} {s s' : Sys} {l : Label}
     (ha : AtomInv snap init s) (hm : Mutex s) (h : Held s)
-    (hs : step true snap s l = some s') : Held s' := by
-  unfold step at hs
-  split at hs
-  · cases hs
-  · cases l with
-    | mutate => injection hs with hs; subst hs; exact held_spawn ha h 1
-    | spawn => injection hs with hs; subst hs; exact held_spawn ha h 0
-    | change => injection hs with hs; subst hs; exact h
-    | adv j => exact held_adv hm h hs
-    | fault j => exact held_fault h hs
-    | crash => injection hs with hs; subst hs; exact h
+    (hs : step true slocked snap s l = some s') : Held s' := by
+  obtain ⟨_, hc⟩ := step_cases hs
+  rcases hc with ⟨_, _, _, e⟩ | ⟨c, _, _, e⟩ | ⟨b, _, _, e⟩ | ⟨_, e⟩ | ⟨j, _, e⟩ | ⟨j, _, e⟩ | ⟨_, e⟩ |
+    ⟨j, _, hpc, e⟩
+  · subst e; exact held_frame h rfl rfl
+  · subst e; exact held_frame h rfl rfl
+  · subst e
+    cases b
+    · exact held_frame h rfl rfl
+    · exact held_spawn (atomInv_frame ha rfl rfl rfl rfl) (held_frame h rfl rfl)
+  · subst e; exact held_spawn ha h
+  · exact held_adv hm h e
+  · exact held_fault h e
+  · subst e; exact held_frame h rfl rfl
+  · subst e
+    intro i hi
+    have := h i hi
+    by_cases e : i = j
+    · subst e; rw [hpc] at this; simp [Pc.inCS] at this
+    · simp only [setJob, e, if_false]; exact this
 
-theorem held_exec {snap init} (ls : List Label) {s s' : Sys}
+theorem held_exec {slocked snap init} (ls : List Label) {s s' : Sys}
     (ha : AtomInv snap init s) (hm : Mutex s) (h : Held s)
-    (hs : exec true snap ls s = some s') : Held s' := by
+    (hs : exec true slocked snap ls s = some s') : Held s' := by
   induction ls generalizing s with
   | nil => simp [exec] at hs; subst hs; exact h
   | cons l ls ih =>
@@ -338,67 +857,78 @@ theorem held_exec {snap init} (ls : List Label) {s s' : Sys}
     · next s1 h1 => exact ih (atomInv_step ha h1) (mutex_step hm h1) (held_step ha hm h h1) hs
     · cases hs
 
-/-- a job inside the critical section can always take its next step -/
-theorem adv_enabled_of_inCS {snap} {s : Sys} {j : Nat} (h : (s.jobs j).inCS = true) :
-    ∃ s', adv true snap s j = some s' := by
+/-- a job inside the critical section can always take its next step, except that at `snapshot` it
+    needs `state.lock` to be free -/
+theorem adv_enabled_of_inCS {snap} {s : Sys} {j : Nat} (h : (s.jobs j).inCS = true)
+    (hsn : s.jobs j = .snapshot → s.slock = none) :
+    ∃ s', adv true true snap s j = some s' := by
   unfold adv
   split <;> simp_all [Pc.inCS]
-  split <;> simp
+  all_goals (split <;> simp)
 
-/-! ### convergence invariant (locked relation, quiet labels) -/
+/-! ### convergence invariant (both locks, quiet labels) -/
 
-/-- Either nothing was ever submitted, or some job will still read the state, or the lock holder
-    carries the latest version, or the file already holds the latest version and nobody is about
+/-- Either nothing was ever submitted, or some job will still read the state, or the persist-lock
+    holder carries the latest state, or the file already holds the latest state and nobody is about
     to overwrite it. -/
-def Conv (snap : Nat → Content) (s : Sys) : Prop :=
+def Conv (snap : Vec → Content) (s : Sys) : Prop :=
   (∀ j, s.jobs j = .unspawned) ∨ (∃ j, (s.jobs j).pre = true) ∨
-  (∃ j, (s.jobs j).carries = some s.ver) ∨
-  (s.target = some (snap s.ver) ∧ ∀ j, (s.jobs j).carries = none)
+  (∃ j, (s.jobs j).carries = some (latest s)) ∨
+  (s.target = some (snap (latest s)) ∧ ∀ j, (s.jobs j).carries = none)
 
-theorem conv_init (snap : Nat → Content) (init : Option Content) : Conv snap (initSys init) :=
+theorem conv_init (snap : Vec → Content) (init : Option Content) (mem0 : Vec) :
+    Conv snap (initSys init mem0) :=
   Or.inl fun _ => rfl
 
-theorem conv_spawn {snap} {s : Sys} (k : Nat) : Conv snap (spawn { s with ver := s.ver + k }) := by
+theorem conv_spawn {snap} {s : Sys} : Conv snap (spawn s) := by
   refine Or.inr (Or.inl ⟨s.njobs, ?_⟩)
   simp [spawn, Pc.pre]
 
-/-- frame lemma: job `j` moves from a spawned pc to `pc'`, target and version unchanged -/
+theorem conv_frame {snap} {s s' : Sys} (h : Conv snap s) (hj : s'.jobs = s.jobs)
+    (hh : s'.hist = s.hist) (ht : s'.target = s.target) : Conv snap s' := by
+  unfold Conv latest at h ⊢
+  rw [hj, hh, ht]; exact h
+
+/-- frame lemma: job `j` moves from a spawned pc to `pc'`, target and history unchanged -/
 theorem conv_update {snap} {s s' : Sys} {j : Nat} {pc' : Pc}
-    (h : Conv snap s) (hv : s'.ver = s.ver) (ht : s'.target = s.target)
+    (h : Conv snap s) (hv : s'.hist = s.hist) (ht : s'.target = s.target)
     (hjobs : s'.jobs = fun i => if i = j then pc' else s.jobs i)
     (hsp : s.jobs j ≠ .unspawned)
-    (hpre : (s.jobs j).pre = true → pc'.pre = true ∨ pc'.carries = some s.ver)
-    (hcar : (s.jobs j).carries = some s.ver → pc'.carries = some s.ver)
+    (hpre : (s.jobs j).pre = true → pc'.pre = true ∨ pc'.carries = some (latest s))
+    (hcar : (s.jobs j).carries = some (latest s) → pc'.carries = some (latest s))
     (hnone : (s.jobs j).carries = none →
-      pc'.carries = none ∨ pc'.pre = true ∨ pc'.carries = some s.ver) : Conv snap s' := by
+      pc'.carries = none ∨ pc'.pre = true ∨ pc'.carries = some (latest s)) : Conv snap s' := by
   have hj' : s'.jobs j = pc' := by simp [hjobs]
   have hi' : ∀ i, i ≠ j → s'.jobs i = s.jobs i := by intro i hi; simp [hjobs, hi]
+  have hl : latest s' = latest s := by unfold latest; rw [hv]
   rcases h with h | ⟨i, h⟩ | ⟨i, h⟩ | ⟨h1, h2⟩
   · exact absurd (h j) hsp
   · by_cases e : i = j
     · subst e
       rcases hpre h with p | p
       · exact Or.inr (Or.inl ⟨i, by rw [hj']; exact p⟩)
-      · exact Or.inr (Or.inr (Or.inl ⟨i, by rw [hj', hv]; exact p⟩))
+      · exact Or.inr (Or.inr (Or.inl ⟨i, by rw [hj', hl]; exact p⟩))
     · exact Or.inr (Or.inl ⟨i, by rw [hi' i e]; exact h⟩)
   · by_cases e : i = j
     · subst e
-      exact Or.inr (Or.inr (Or.inl ⟨i, by rw [hj', hv]; exact hcar h⟩))
-    · exact Or.inr (Or.inr (Or.inl ⟨i, by rw [hi' i e, hv]; exact h⟩))
+      exact Or.inr (Or.inr (Or.inl ⟨i, by rw [hj', hl]; exact hcar h⟩))
+    · exact Or.inr (Or.inr (Or.inl ⟨i, by rw [hi' i e, hl]; exact h⟩))
   · rcases hnone (h2 j) with p | p | p
-    · refine Or.inr (Or.inr (Or.inr ⟨by rw [ht, hv]; exact h1, ?_⟩))
+    · refine Or.inr (Or.inr (Or.inr ⟨by rw [ht, hl]; exact h1, ?_⟩))
       intro i
       by_cases e : i = j
       · subst e; rw [hj']; exact p
       · rw [hi' i e]; exact h2 i
     · exact Or.inr (Or.inl ⟨j, by rw [hj']; exact p⟩)
-    · exact Or.inr (Or.inr (Or.inl ⟨j, by rw [hj', hv]; exact p⟩))
+    · exact Or.inr (Or.inr (Or.inl ⟨j, by rw [hj', hl]; exact p⟩))
 
 theorem conv_adv {snap init} {s s' : Sys} {j : Nat}
-    (ha : AtomInv snap init s) (hm : Mutex s) (h : Conv snap s)
-    (hs : adv true snap s j = some s') : Conv snap s' := by
+    (ha : AtomInv snap init s) (hsn : SnapInv snap init s) (hm : Mutex s) (h : Conv snap s)
+    (hs : adv true true snap s j = some s') : Conv snap s' := by
   have hj := ha.jobs j
+  have hsj := hsn.jobs j
   unfold JobOk at hj
+  unfold SnapOk at hsj
   unfold adv at hs
   split at hs
   · cases hs
@@ -415,13 +945,41 @@ theorem conv_adv {snap init} {s s' : Sys} {j : Nat}
     injection hs with hs; subst hs
     exact conv_update (j := j) (pc' := .snapshot) h rfl rfl rfl (by simp [hpc])
       (by simp [Pc.pre]) (by simp [hpc, Pc.carries]) (by simp [Pc.pre])
-  · next hpc =>
-    injection hs with hs; subst hs
-    exact conv_update (j := j) (pc' := .write s.ver (snap s.ver)) h rfl rfl rfl (by simp [hpc])
-      (by simp [Pc.carries]) (by simp [Pc.carries]) (by simp [Pc.carries])
+  · -- snapshot: acquire state.lock
+    next hpc =>
+    simp only [if_true] at hs
+    split at hs
+    · injection hs with hs; subst hs
+      exact conv_update (j := j) (pc' := .reading []) h rfl rfl rfl (by simp [hpc])
+        (by simp [Pc.pre]) (by simp [hpc, Pc.carries]) (by simp [Pc.pre])
+    · cases hs
+  · -- reading
+    next got hpc =>
+    rw [hpc] at hsj
+    split at hs
+    · injection hs with hs; subst hs
+      exact conv_update (j := j) (pc' := .reading _) h rfl rfl rfl (by simp [hpc])
+        (by simp [Pc.pre]) (by simp [hpc, Pc.carries]) (by simp [Pc.pre])
+    · next hlt =>
+      injection hs with hs; subst hs
+      -- the last read: what was read is the latest state, because nobody could change memory
+      have hmut : s.chg = false := by
+        cases hmm : s.chg with
+        | false => rfl
+        | true => have := hsn.chgHeld hmm; rw [hsj.1] at this; cases this
+      have hgot : got = latest s := by
+        have h2 := hsj.2
+        rw [take_full s.mem got.length hlt] at h2
+        rw [h2]; exact (headD_of_head? (hsn.memHist hmut)).symm
+      exact conv_update (j := j) (pc' := .write got (snap got)) h rfl rfl rfl (by simp [hpc])
+        (by simp [Pc.carries, hgot]) (by simp [hpc, Pc.carries]) (by simp [Pc.carries, hgot])
   · next v c rest hpc =>
     injection hs with hs; subst hs
     exact conv_update (j := j) (pc' := .write v rest) h rfl rfl rfl (by simp [hpc])
+      (by simp [hpc, Pc.pre]) (by simp [hpc, Pc.carries]) (by simp [hpc, Pc.carries])
+  · next v hpc =>
+    injection hs with hs; subst hs
+    exact conv_update (j := j) (pc' := .closing v) h rfl rfl rfl (by simp [hpc])
       (by simp [hpc, Pc.pre]) (by simp [hpc, Pc.carries]) (by simp [hpc, Pc.carries])
   · next v hpc =>
     injection hs with hs; subst hs
@@ -437,6 +995,10 @@ theorem conv_adv {snap init} {s s' : Sys} {j : Nat}
       cases hc : (s.jobs i).carries with
       | none => rfl
       | some w => exact absurd (mutex_unique hm (Pc.inCS_of_carries hc) hcs) hi
+    have hl : latest (setJob { setTemp s j none with target := s.temps j } j (.cleanup false))
+        = latest s := rfl
+    unfold Conv
+    rw [hl]
     rcases h with h | ⟨i, h⟩ | ⟨i, h⟩ | ⟨_, h2⟩
     · exact absurd (h j) (by simp [hpc])
     · have e : i ≠ j := by intro e; subst e; simp [hpc, Pc.pre] at h
@@ -448,7 +1010,7 @@ theorem conv_adv {snap init} {s s' : Sys} {j : Nat}
       rw [hpc] at h
       simp only [Pc.carries, Option.some.injEq] at h
       subst h
-      refine Or.inr (Or.inr (Or.inr ⟨by simp [setJob, setTemp, hj.2], ?_⟩))
+      refine Or.inr (Or.inr (Or.inr ⟨by simp [setJob, setTemp, hj], ?_⟩))
       intro k
       by_cases e : k = i
       · subst e; simp [setJob, Pc.carries]
@@ -475,23 +1037,241 @@ theorem conv_adv {snap init} {s s' : Sys} {j : Nat}
   · cases hs
 
 theorem conv_step {snap init} {s s' : Sys} {l : Label}
-    (ha : AtomInv snap init s) (hm : Mutex s) (h : Conv snap s) (hq : l.quiet = true)
-    (hs : step true snap s l = some s') : Conv snap s' := by
-  unfold step at hs
-  split at hs
-  · cases hs
-  · cases l with
-    | mutate => injection hs with hs; subst hs; exact conv_spawn 1
-    | spawn => injection hs with hs; subst hs; exact conv_spawn 0
-    | change => simp [Label.quiet] at hq
-    | adv j => exact conv_adv ha hm h hs
-    | fault j => simp [Label.quiet] at hq
-    | crash => simp [Label.quiet] at hq
+    (ha : AtomInv snap init s) (hsn : SnapInv snap init s) (hm : Mutex s) (h : Conv snap s)
+    (hq : l.quiet = true) (hs : step true true snap s l = some s') : Conv snap s' := by
+  obtain ⟨_, hc⟩ := step_cases hs
+  rcases hc with ⟨_, _, _, e⟩ | ⟨c, _, _, e⟩ | ⟨b, hl, _, e⟩ | ⟨_, e⟩ | ⟨j, _, e⟩ | ⟨j, hl, e⟩ |
+    ⟨hl, e⟩ | ⟨j, hl, _, e⟩
+  · subst e; exact conv_frame h rfl rfl rfl
+  · subst e; exact conv_frame h rfl rfl rfl
+  · subst e
+    cases b
+    · subst hl; simp [Label.quiet] at hq
+    · exact conv_spawn
+  · subst e; exact conv_spawn
+  · exact conv_adv ha hsn hm h e
+  · subst hl; simp [Label.quiet] at hq
+  · subst hl; simp [Label.quiet] at hq
+  · subst hl; simp [Label.quiet] at hq
 
 theorem conv_exec {snap init} (ls : List Label) {s s' : Sys}
-    (ha : AtomInv snap init s) (hm : Mutex s) (h : Conv snap s)
+    (ha : AtomInv snap init s) (hsn : SnapInv snap init s) (hm : Mutex s) (h : Conv snap s)
     (hq : ∀ l ∈ ls, l.quiet = true)
-    (hs : exec true snap ls s = some s') : Conv snap s' := by
+    (hs : exec true true snap ls s = some s') : Conv snap s' := by
+  induction ls generalizing s with
+  | nil => simp [exec] at hs; subst hs; exact h
+  | cons l ls ih =>
+    simp only [exec] at hs
+    split at hs
+    · next s1 h1 =>
+      exact ih (atomInv_step ha h1) (snapInv_step ha hsn h1) (mutex_step hm h1)
+        (conv_step ha hsn hm h (hq l (by simp)) h1) (fun l' hl' => hq l' (by simp [hl'])) hs
+    · cases hs
+
+/-! ### convergence without `state.lock` (persist lock only, quiet labels): the last change's own job
+    reads after it, whatever was read in between -/
+
+/-- the job has not begun to read the state -/
+def Pc.early : Pc → Bool
+  | .start => true
+  | .mktemp => true
+  | .snapshot => true
+  | _ => false
+
+/-- what the job has read so far, or carries, agrees with the present memory -/
+def Pc.good (mem : Vec) : Pc → Prop
+  | .reading got => got = mem.take got.length
+  | pc => pc.carries = some mem
+
+/-- the job is neither reading nor carrying a snapshot -/
+def Pc.idle : Pc → Bool
+  | .reading _ => false
+  | .write _ _ => false
+  | .closing _ => false
+  | .replace _ => false
+  | _ => true
+
+theorem Pc.inCS_of_not_idle {pc : Pc} (h : pc.idle = false) : pc.inCS = true := by
+  cases pc <;> simp_all [Pc.idle, Pc.inCS]
+
+def ConvU (snap : Vec → Content) (s : Sys) : Prop :=
+  (∀ j, s.jobs j = .unspawned) ∨ s.chg = true ∨ (∃ j, (s.jobs j).early = true) ∨
+  (∃ j, (s.jobs j).good s.mem) ∨ (s.target = some (snap s.mem) ∧ ∀ j, (s.jobs j).idle = true)
+
+theorem convU_init (snap : Vec → Content) (init : Option Content) (mem0 : Vec) :
+    ConvU snap (initSys init mem0) :=
+  Or.inl fun _ => rfl
+
+theorem convU_spawn {snap} {s : Sys} : ConvU snap (spawn s) := by
+  refine Or.inr (Or.inr (Or.inl ⟨s.njobs, ?_⟩))
+  simp [spawn, Pc.early]
+
+/-- frame lemma: job `j` moves from a spawned pc to `pc'`; memory, `chg` and the target are unchanged -/
+theorem convU_update {snap} {s s' : Sys} {j : Nat} {pc' : Pc}
+    (h : ConvU snap s) (hm : s'.mem = s.mem) (hc : s'.chg = s.chg) (ht : s'.target = s.target)
+    (hjobs : s'.jobs = fun i => if i = j then pc' else s.jobs i)
+    (hsp : s.jobs j ≠ .unspawned)
+    (hearly : (s.jobs j).early = true → pc'.early = true ∨ pc'.good s.mem)
+    (hgood : (s.jobs j).good s.mem → pc'.good s.mem)
+    (hidle : (s.jobs j).idle = true → pc'.idle = true ∨ pc'.early = true ∨ pc'.good s.mem) :
+    ConvU snap s' := by
+  have hj' : s'.jobs j = pc' := by simp [hjobs]
+  have hi' : ∀ i, i ≠ j → s'.jobs i = s.jobs i := by intro i hi; simp [hjobs, hi]
+  unfold ConvU
+  rw [hm, hc, ht]
+  rcases h with h | h | ⟨i, h⟩ | ⟨i, h⟩ | ⟨h1, h2⟩
+  · exact absurd (h j) hsp
+  · exact Or.inr (Or.inl h)
+  · by_cases e : i = j
+    · subst e
+      rcases hearly h with p | p
+      · exact Or.inr (Or.inr (Or.inl ⟨i, by rw [hj']; exact p⟩))
+      · exact Or.inr (Or.inr (Or.inr (Or.inl ⟨i, by rw [hj']; exact p⟩)))
+    · exact Or.inr (Or.inr (Or.inl ⟨i, by rw [hi' i e]; exact h⟩))
+  · by_cases e : i = j
+    · subst e
+      exact Or.inr (Or.inr (Or.inr (Or.inl ⟨i, by rw [hj']; exact hgood h⟩)))
+    · exact Or.inr (Or.inr (Or.inr (Or.inl ⟨i, by rw [hi' i e]; exact h⟩)))
+  · rcases hidle (h2 j) with p | p | p
+    · refine Or.inr (Or.inr (Or.inr (Or.inr ⟨h1, ?_⟩)))
+      intro i
+      by_cases e : i = j
+      · subst e; rw [hj']; exact p
+      · rw [hi' i e]; exact h2 i
+    · exact Or.inr (Or.inr (Or.inl ⟨j, by rw [hj']; exact p⟩))
+    · exact Or.inr (Or.inr (Or.inr (Or.inl ⟨j, by rw [hj']; exact p⟩)))
+
+theorem convU_adv {snap init} {s s' : Sys} {j : Nat}
+    (ha : AtomInv snap init s) (hm : Mutex s) (h : ConvU snap s)
+    (hs : adv true false snap s j = some s') : ConvU snap s' := by
+  have hj := ha.jobs j
+  unfold JobOk at hj
+  unfold adv at hs
+  split at hs
+  · cases hs
+  · -- start: acquire
+    next hpc =>
+    split at hs
+    · split at hs
+      · injection hs with hs; subst hs
+        exact convU_update (j := j) (pc' := .mktemp) h rfl rfl rfl rfl (by simp [hpc])
+          (by simp [Pc.early]) (by simp [hpc, Pc.good, Pc.carries]) (by simp [Pc.early])
+      · cases hs
+    · contradiction
+  · next hpc =>
+    injection hs with hs; subst hs
+    exact convU_update (j := j) (pc' := .snapshot) h rfl rfl rfl rfl (by simp [hpc])
+      (by simp [Pc.early]) (by simp [hpc, Pc.good, Pc.carries]) (by simp [Pc.early])
+  · -- snapshot: no state.lock to take; the job has read nothing yet
+    next hpc =>
+    simp only [Bool.false_eq_true, if_false] at hs
+    injection hs with hs; subst hs
+    exact convU_update (j := j) (pc' := .reading []) h rfl rfl rfl rfl (by simp [hpc])
+      (by simp [Pc.good]) (by simp [hpc, Pc.good, Pc.carries]) (by simp [Pc.good])
+  · -- reading
+    next got hpc =>
+    split at hs
+    · next hlt =>
+      injection hs with hs; subst hs
+      refine convU_update (j := j) (pc' := .reading _) h rfl rfl rfl rfl (by simp [hpc])
+        (by simp [hpc, Pc.early]) ?_ (by simp [hpc, Pc.idle])
+      intro hg
+      rw [hpc] at hg
+      simp only [Pc.good] at hg ⊢
+      rw [List.length_append, List.length_singleton]
+      rw [← take_snoc_getD s.mem got.length hlt, ← hg]
+    · next hlt =>
+      injection hs with hs; subst hs
+      refine convU_update (j := j) (pc' := .write got (snap got)) h rfl rfl rfl rfl (by simp [hpc])
+        (by simp [hpc, Pc.early]) ?_ (by simp [hpc, Pc.idle])
+      intro hg
+      rw [hpc] at hg
+      simp only [Pc.good] at hg
+      rw [take_full s.mem got.length hlt] at hg
+      simp [Pc.good, Pc.carries, hg]
+  · next v c rest hpc =>
+    injection hs with hs; subst hs
+    exact convU_update (j := j) (pc' := .write v rest) h rfl rfl rfl rfl (by simp [hpc])
+      (by simp [hpc, Pc.early]) (by simp [hpc, Pc.good, Pc.carries]) (by simp [hpc, Pc.idle])
+  · next v hpc =>
+    simp only [Bool.false_eq_true, if_false] at hs
+    injection hs with hs; subst hs
+    exact convU_update (j := j) (pc' := .closing v) h rfl rfl rfl rfl (by simp [hpc])
+      (by simp [hpc, Pc.early]) (by simp [hpc, Pc.good, Pc.carries]) (by simp [hpc, Pc.idle])
+  · next v hpc =>
+    injection hs with hs; subst hs
+    exact convU_update (j := j) (pc' := .replace v) h rfl rfl rfl rfl (by simp [hpc])
+      (by simp [hpc, Pc.early]) (by simp [hpc, Pc.good, Pc.carries]) (by simp [hpc, Pc.idle])
+  · -- replace: the only step that changes the target
+    next v hpc =>
+    injection hs with hs; subst hs
+    rw [hpc] at hj
+    have hcs : (s.jobs j).inCS = true := by simp [hpc, Pc.inCS]
+    have others : ∀ i, i ≠ j → (s.jobs i).idle = true := by
+      intro i hi
+      cases hc : (s.jobs i).idle with
+      | true => rfl
+      | false => exact absurd (mutex_unique hm (Pc.inCS_of_not_idle hc) hcs) hi
+    unfold ConvU
+    rcases h with h | h | ⟨i, h⟩ | ⟨i, h⟩ | ⟨_, h2⟩
+    · exact absurd (h j) (by simp [hpc])
+    · exact Or.inr (Or.inl h)
+    · have e : i ≠ j := by intro e; subst e; simp [hpc, Pc.early] at h
+      exact Or.inr (Or.inr (Or.inl ⟨i, by simp [setJob, setTemp, e]; exact h⟩))
+    · by_cases e : i = j
+      · subst e
+        rw [hpc] at h
+        simp only [Pc.good, Pc.carries, Option.some.injEq] at h
+        subst h
+        refine Or.inr (Or.inr (Or.inr (Or.inr ⟨by simp [setJob, setTemp, hj], ?_⟩)))
+        intro k
+        by_cases e : k = i
+        · subst e; simp [setJob, Pc.idle]
+        · simp [setJob, setTemp, e]; exact others k e
+      · exact Or.inr (Or.inr (Or.inr (Or.inl ⟨i, by simp [setJob, setTemp, e]; exact h⟩)))
+    · have := h2 j
+      simp [hpc, Pc.idle] at this
+  · -- cleanup
+    next r hpc =>
+    split at hs
+    · injection hs with hs; subst hs
+      exact convU_update (j := j) (pc' := .remove r) h rfl rfl rfl rfl (by simp [hpc])
+        (by simp [hpc, Pc.early]) (by simp [hpc, Pc.good, Pc.carries]) (by simp [Pc.idle])
+    · injection hs with hs; subst hs
+      exact convU_update (j := j) (pc' := .unlock (resOf r)) h rfl rfl rfl rfl (by simp [hpc])
+        (by simp [hpc, Pc.early]) (by simp [hpc, Pc.good, Pc.carries]) (by simp [Pc.idle])
+  · next r hpc =>
+    injection hs with hs; subst hs
+    exact convU_update (j := j) (pc' := .unlock (resOf r)) h rfl rfl rfl rfl (by simp [hpc])
+      (by simp [hpc, Pc.early]) (by simp [hpc, Pc.good, Pc.carries]) (by simp [Pc.idle])
+  · next r hpc =>
+    injection hs with hs; subst hs
+    exact convU_update (j := j) (pc' := .done r) h rfl rfl rfl rfl (by simp [hpc])
+      (by simp [hpc, Pc.early]) (by simp [hpc, Pc.good, Pc.carries]) (by simp [Pc.idle])
+  · cases hs
+
+theorem convU_step {snap init} {s s' : Sys} {l : Label}
+    (ha : AtomInv snap init s) (hm : Mutex s) (h : ConvU snap s)
+    (hq : l.quiet = true) (hs : step true false snap s l = some s') : ConvU snap s' := by
+  obtain ⟨_, hc⟩ := step_cases hs
+  rcases hc with ⟨_, _, _, e⟩ | ⟨c, _, hch, e⟩ | ⟨b, hl, _, e⟩ | ⟨_, e⟩ | ⟨j, _, e⟩ | ⟨j, hl, e⟩ |
+    ⟨hl, e⟩ | ⟨j, hl, _, e⟩
+  · subst e; exact Or.inr (Or.inl rfl)
+  · subst e; exact Or.inr (Or.inl hch)
+  · subst e
+    cases b
+    · subst hl; simp [Label.quiet] at hq
+    · exact convU_spawn
+  · subst e; exact convU_spawn
+  · exact convU_adv ha hm h e
+  · subst hl; simp [Label.quiet] at hq
+  · subst hl; simp [Label.quiet] at hq
+  · subst hl; simp [Label.quiet] at hq
+
+theorem convU_exec {snap init} (ls : List Label) {s s' : Sys}
+    (ha : AtomInv snap init s) (hm : Mutex s) (h : ConvU snap s)
+    (hq : ∀ l ∈ ls, l.quiet = true)
+    (hs : exec true false snap ls s = some s') : ConvU snap s' := by
   induction ls generalizing s with
   | nil => simp [exec] at hs; subst hs; exact h
   | cons l ls ih =>
@@ -499,7 +1279,6 @@ theorem conv_exec {snap init} (ls : List Label) {s s' : Sys}
     split at hs
     · next s1 h1 =>
       exact ih (atomInv_step ha h1) (mutex_step hm h1)
-        (conv_step ha hm h (hq l (by simp)) h1) (fun l' hl' => hq l' (by simp [hl'])) hs
+        (convU_step ha hm h (hq l (by simp)) h1) (fun l' hl' => hq l' (by simp [hl'])) hs
     · cases hs
-
 end Hap.Persist
